@@ -233,6 +233,7 @@ let rec run_obj_op (ctx : ctx) (pp : ppacket) (f : string array) : string =
   | "sp" -> do_op ctx pp (OSetResponse (f.(1) = "1")) ""
   | "I" -> do_op ctx pp (OInsertText (sec_of f.(1), unhex f.(2))) ""
   | "IQ" -> do_op ctx pp (OInsertQuestion (unhex f.(1), n_of_int (int_of_string f.(2)))) ""
+  | "IR" -> do_op ctx pp (OInsertRaw (sec_of f.(1), unhex f.(2), n_of_int (int_of_string f.(3)), nat_of_int (int_of_string f.(4)))) ""
   | "rn" -> do_op ctx pp (ORename (unhex f.(1), unhex f.(2), f.(3) = "1")) ""
   | "rc" -> do_op ctx pp ORecompute ""
   | "W" ->
